@@ -8,6 +8,8 @@ import (
 	"reflect"
 	"strconv"
 	"strings"
+	"time"
+	_ "time/tzdata"
 	"unicode/utf8"
 
 	"vmon/internal/core"
@@ -508,6 +510,41 @@ func runC05(c *core.Ctx) {
 			{"datetime", "2021-01-11 23:60:00"}, {"datetime", "2021-01-11 23:59:60"}, {"email", "a@b.cc\n"}, {"idcard", "51132119900101123x"}, {"ip", "1.2.3.4.5"}, {"ipv6", "::"}, {"ipv6", "1::2::3"}, {"json", "{\"a\":1,}"}, {"json", " [1] "}} {
 			judge(d[0], reflect.ValueOf(d[1]), "edit")
 		}
+	}
+	// ---- a date or a time of day is text: what the rule accepts does not depend on the zone the process runs in. The
+	// wall-clock times that a zone with daylight saving skips (02:30 on the night the clocks go forward) are members
+	// like any other; they are judged with the process's local zone set to such a zone. The zone is found with the time
+	// package; the verdict comes from the recogniser, which knows no zones.
+	if c.Shard%4 == 1 {
+		saved := time.Local
+		for _, zn := range []string{"America/New_York", "Europe/Berlin", "Australia/Lord_Howe", "America/Sao_Paulo", "Asia/Tehran", "Pacific/Apia"} {
+			loc, err := time.LoadLocation(zn)
+			if err != nil {
+				res.Count("zones_not_available")
+				continue
+			}
+			time.Local = loc
+			for y := 2012; y <= 2026; y++ {
+				for d := time.Date(y, 1, 1, 12, 0, 0, 0, time.UTC); d.Year() == y; d = d.AddDate(0, 0, 1) {
+					for _, hm := range [][2]int{{0, 0}, {0, 30}, {1, 30}, {2, 0}, {2, 15}, {2, 30}, {3, 30}, {23, 59}} {
+						t := time.Date(y, d.Month(), d.Day(), hm[0], hm[1], 0, 0, loc)
+						if t.Hour() == hm[0] && t.Minute() == hm[1] && t.Day() == d.Day() {
+							continue // this wall-clock time exists in the zone
+						}
+						res.Count("skipped_wall_clock_times_judged")
+						txt := fmt.Sprintf("%04d-%02d-%02d %02d:%02d:00", y, int(d.Month()), d.Day(), hm[0], hm[1])
+						judge("datetime", reflect.ValueOf(txt), "member")
+						judge("datetime='/,T,.'", reflect.ValueOf(fmt.Sprintf("%04d/%02d/%02dT%02d.%02d.00", y, int(d.Month()), d.Day(), hm[0], hm[1])), "member")
+						judge("date", reflect.ValueOf(txt[:10]), "member")
+					}
+				}
+			}
+			// and ordinary members and near-misses under that zone
+			for _, d := range [][2]string{{"datetime", "2021-01-11 23:22:11"}, {"datetime", "2021-01-11 24:00:00"}, {"datetime", "2021-02-30 00:00:00"}, {"date", "2024-02-29"}, {"date", "2023-02-29"}, {"year2month", "2020-12"}, {"year", "1996"}} {
+				judge(d[0], reflect.ValueOf(d[1]), "edit")
+			}
+		}
+		time.Local = saved
 	}
 	// ---- numeric and slice inputs
 	M := c.Pick(1500, 40000)
